@@ -214,6 +214,72 @@ static void rnd_gen(Ctx& ctx) {
     });
 }
 
+// ------------------------------------------------------------------------------------------- call sequences
+// The range checks above call primes() once per child process and the other helpers with ascending arguments.  Here 2..10 calls
+// with unrelated arguments (going up AND down) run one after the other in one thread of one child: each answer must be what the
+// mathematics says for ITS argument, whatever was asked before (a helper that keeps a table between calls must keep it right).
+VK_SUB(seqs, "call_sequences");
+static void seqs_check(const Json& c, Out& o) {
+    std::vector<std::pair<int, uint32_t>> ops;
+    const auto& a = c.at("ops").a;
+    for (size_t i = 0; i + 1 < a.size(); i += 2) ops.emplace_back(int(a[i].integer()), uint32_t(a[i + 1].integer()));
+    Progress pg;
+    o.evals = 0;
+    (void)sieve();   // built once in the parent, shared copy-on-write with the children
+    run_forked(o, 20.0 + 2.0 * double(ops.size()), [&](Out& co) {
+        co.evals = 0;
+        int k = 0;
+        for (auto& op : ops) {
+            const int what = op.first == F_PRIMES ? 8 : (1 << (op.first - 1));
+            check_value(op.second, what, co, pg);
+            if (co.failed) { co.msg = fmt("[call %d of %zu in one thread] ", k, ops.size()) + co.msg; break; }
+            ++k;
+        }
+    }, &pg);
+    if (o.failed && o.sig == "hang") {
+        int64_t v = pg.get();
+        o.sig = std::string(fn_name(int(v & 7))) + ":hang";
+        o.msg = fmt("%s(%lld) did not return (call sequence)", fn_name(int(v & 7)), (long long)(v >> 3));
+    }
+    int np = 0, down = 0;
+    uint32_t last = 0;
+    bool havep = false;
+    for (auto& op : ops) if (op.first == F_PRIMES) { ++np; if (havep && op.second < last) ++down; last = op.second; havep = true; }
+    o.label(np >= 3 && down >= 1 ? "primes():up-and-down" : np >= 2 ? "primes():>=2 calls" : "primes():<2 calls");
+    if (ops.size() >= 2) { uint64_t k = 0xC15; for (auto& op : ops) k = mix(k, uint64_t(op.first) << 32 | op.second); o.nontrivial(k); }
+}
+static void seqs_gen(Ctx& ctx) {
+    ctx.rc("sequences", ctx.by_tier(60000, 480000), [&]() {
+        std::vector<long long> ops;
+        const int len = pick(2, 10);
+        const bool primes_heavy = flip();
+        for (int i = 0; i < len; ++i) {
+            const int fn = primes_heavy && pick(0, 3) != 0 ? int(F_PRIMES) : pick(1, 4);
+            long long n;
+            if (fn == F_PRIMES) {
+                switch (pick(0, 4)) {
+                case 0: n = pick(0, 300); break;
+                case 1: n = pick(200, 70000); break;
+                case 2: n = pick64(0, 1 << pick(1, 20)); break;
+                case 3: n = one_of<int>({0, 1, 2, 3, 250, 251, 252, 256, 257, 65521, 65536, 65537, 1000, 100}); break;
+                default: n = pick(0, 5000);
+                }
+            } else {
+                switch (pick(0, 3)) {
+                case 0: n = pick(0, 70000); break;
+                case 1: n = pick64(0, 0xFFFFFFFFll); break;
+                case 2: n = pick64(0, (1ll << pick(1, 32)) - 1); break;
+                default: { long long q = one_of<int>({251, 257, 65521, 65519, 46337, 46349, 2, 3}); long long r = one_of<int>({251, 257, 65521, 65519, 46337, 46349, 2, 3}); n = q * r <= 0xFFFFFFFFll ? q * r : q; }
+                }
+                if (fn == F_NEXTPRIME && n > (long long)LAST_PRIME32) n = LAST_PRIME32;
+            }
+            ops.push_back(fn);
+            ops.push_back(n);
+        }
+        return Json::object().set("ops", ops);
+    });
+}
+
 // ------------------------------------------------------------------------------------------- nextpow2 / ispow2
 VK_SUB(p2, "pow2_ranges");
 static void p2_check(const Json& c, Out& o) {
